@@ -28,5 +28,81 @@ theorem utcoffset_eq (z : RangeZone) (w : Wall) (on off : Int) (hd : z.hasdst = 
       | true => cases hf : w.fold <;> simp [bind, Except.bind, pure, Except.pure, h2, hf]
       | false => simp [bind, Except.bind, pure, Except.pure, h2]
 
+/-- `_isdst` of a wall reading in closed form -/
+theorem isdst_eq (z : RangeZone) (w : Wall) (on off : Int) (hd : z.hasdst = true)
+    (htr : z.transitions (yearOf w.wall) = some (on, off)) :
+    z.isdst w = .ok (if naiveIsdst w.wall (on, off) then true
+      else if (decide (off ≤ w.wall) && decide (w.wall < off + z.saving)) then !w.fold else false) := by
+  unfold isdst isAmbiguous
+  simp only [hd, htr, Bool.not_true, Bool.false_eq_true, if_false]
+  cases h1 : naiveIsdst w.wall (on, off) with
+  | true => simp
+  | false =>
+      cases h2 : (decide (off ≤ w.wall) && decide (w.wall < off + z.saving)) with
+      | true => simp [bind, Except.bind, pure, Except.pure, h2]
+      | false => simp [bind, Except.bind, pure, Except.pure, h2]
+
+/-- **what `fromutc` decides.**  `(on, off)`: the pair of the UTC year; `(on₁, off₁)`, `(on₂, off₂)`:
+    the pairs of the wall-clock years of `t + stdOff` and `t + dstOff`, each making at that wall
+    reading the same two decisions (naive DST, repeated interval) as the UTC year's pair — the exact
+    condition under which `tzrangebase`'s two year lookups cohere.  Then the converted datetime is
+    daylight time exactly when `on − std ≤ t < off − std` (either order), and `_isdst` reports it. -/
+theorem isdst_fromutc (z : RangeZone) (t on off on₁ off₁ on₂ off₂ : Int)
+    (hsav : 0 < z.saving) (hd : z.hasdst = true)
+    (htr : z.transitions (yearOf t) = some (on, off))
+    (h₁ : z.transitions (yearOf (t + z.stdOff)) = some (on₁, off₁))
+    (h₂ : z.transitions (yearOf (t + z.dstOff)) = some (on₂, off₂))
+    (n₁ : naiveIsdst (t + z.stdOff) (on₁, off₁) = naiveIsdst (t + z.stdOff) (on, off))
+    (a₁ : (decide (off₁ ≤ t + z.stdOff) && decide (t + z.stdOff < off₁ + z.saving)) =
+          (decide (off ≤ t + z.stdOff) && decide (t + z.stdOff < off + z.saving)))
+    (n₂ : naiveIsdst (t + z.dstOff) (on₂, off₂) = naiveIsdst (t + z.dstOff) (on, off))
+    (a₂ : (decide (off₂ ≤ t + z.dstOff) && decide (t + z.dstOff < off₂ + z.saving)) =
+          (decide (off ≤ t + z.dstOff) && decide (t + z.dstOff < off + z.saving))) :
+    ∃ w, z.fromutc t = .ok w ∧
+      w.wall = t + (if naiveIsdst t (on - z.stdOff, off - z.stdOff) then z.dstOff else z.stdOff) ∧
+      z.isdst w = .ok (naiveIsdst t (on - z.stdOff, off - z.stdOff)) := by
+  have hs : z.dstOff = z.stdOff + z.saving := by unfold RangeZone.saving; omega
+  cases hdv : naiveIsdst t (on - z.stdOff, off - z.stdOff) with
+  | true =>
+      have hf : z.fromutc t = .ok ⟨t + z.dstOff, false⟩ := by
+        unfold fromutc; simp only [htr, hdv, if_true]
+      refine ⟨_, hf, by simp, ?_⟩
+      rw [isdst_eq z ⟨t + z.dstOff, false⟩ on₂ off₂ hd h₂]
+      simp only [n₂, a₂]
+      rw [naiveIsdst_iff] at hdv
+      cases hn : naiveIsdst (t + z.dstOff) (on, off) with
+      | true => simp
+      | false =>
+          rw [naiveIsdst_false_iff] at hn
+          have : (decide (off ≤ t + z.dstOff) && decide (t + z.dstOff < off + z.saving)) = true := by
+            simp only [Bool.and_eq_true, decide_eq_true_eq]; omega
+          simp [this]
+  | false =>
+      have hamb : z.isAmbiguous (t + z.stdOff) =
+          .ok (decide (off ≤ t + z.stdOff) && decide (t + z.stdOff < off + z.saving)) := by
+        unfold isAmbiguous; simp only [hd, h₁, Bool.not_true, Bool.false_eq_true, if_false, a₁]
+      have hf : z.fromutc t = .ok ⟨t + z.stdOff,
+          (decide (off ≤ t + z.stdOff) && decide (t + z.stdOff < off + z.saving))⟩ := by
+        unfold fromutc
+        simp only [htr, hdv, Bool.false_eq_true, if_false, hamb]
+        rfl
+      refine ⟨_, hf, by simp, ?_⟩
+      rw [isdst_eq z ⟨t + z.stdOff, _⟩ on₁ off₁ hd h₁]
+      simp only [n₁, a₁]
+      rw [naiveIsdst_false_iff] at hdv
+      have hn : naiveIsdst (t + z.stdOff) (on, off) = false := by
+        rw [naiveIsdst_false_iff]; omega
+      simp only [hn, Bool.false_eq_true, if_false]
+      cases h2 : (decide (off ≤ t + z.stdOff) && decide (t + z.stdOff < off + z.saving)) <;> simp
+
+/-- `utcoffset / dst / tzname` follow `_isdst` -/
+theorem answers_of_isdst (z : RangeZone) (w : Wall) (d : Bool) (h : z.isdst w = .ok d) :
+    z.utcoffset w = .ok (if d then z.dstOff else z.stdOff) ∧
+    z.dst w = .ok (if d then z.saving else 0) ∧
+    z.tzname w = .ok (if d then z.dstAbbr else z.stdAbbr) := by
+  unfold utcoffset dst tzname
+  simp only [h, bind, Except.bind, pure, Except.pure]
+  cases d <;> simp
+
 end RangeZone
 end TZ
